@@ -428,6 +428,28 @@ def check_pair(d1, d2, ck):
             if want is not None and m1.dtype == numpy.dtype(d1) == m2.dtype:
                 ck.run("multiply(dtype=)", c, lambda: numpoly.multiply(m1, m2, dtype=d2), {(2,): want}, want.dtype, lab)
                 ck.run("numpy.multiply(dtype=)", c, lambda: numpy.multiply(m1, m2, dtype=d2), {(2,): want}, want.dtype, lab)
+            elif want is None and m1.dtype == numpy.dtype(d1) == m2.dtype:
+                # a dtype numpy refuses to cast the operands to (same_kind rule): an error, not silently
+                # truncated operands - whichever internal path the exponents select
+                for hi_exp in (1, 90):
+                    ma = numpoly.polynomial_from_attributes([[hi_exp]], [e1])
+                    ck.n += 1
+                    try:
+                        got = numpoly.multiply(ma, m2, dtype=d2)
+                    except Exception:
+                        continue
+                    ck.fail("multiply(dtype=)", "accepted-unsafe-cast", c,
+                            "%s: numpy.multiply refuses dtype=%s for %s operands, numpoly returned %r (exponent %d)"
+                            % (lab, d2, d1, got, hi_exp))
+            # a reduction mask keeps the accumulator type
+            mask = numpy.array([True, False, True])
+            try:
+                want = numpy.prod(e1, where=mask)
+            except Exception:
+                want = None
+            if want is not None and pm.dtype == numpy.dtype(d1) and d1 == d2:
+                pw = numpoly.polynomial_from_attributes([[1]], [e1])
+                ck.run("prod(where=)", c, lambda: numpoly.prod(pw, where=mask), {(2,): want}, want.dtype, lab)
             py = numpoly.polynomial_from_attributes([[0], [1]], [y1, e1], retain_coefficients=True)
             for name, uf in (("add(dtype=)", "add"), ("subtract(dtype=)", "subtract")):
                 npf = getattr(numpy, uf)
